@@ -15,6 +15,7 @@ def run(tier):
         if r['ok']:
             r['res']['reports'] = [x for x in r['res']['reports'] if x.rule.startswith('R18')]
     irrules.aggregate(ck, res)
+    res = [r for r in res if r['ok']]
     irrules.run_canaries(ck, {'ir_noexcept': [('R18.2', 'canary_noexcept_alloc')]})
     ck.floor('invoke edges into terminate pads examined', sum(r['res']['terminate_edges'] for r in res),
              1000 if tier == 'quick' else 10000)
